@@ -64,7 +64,7 @@ fn fields_scenario(name: String, params: Value) -> Scenario {
         let dup = qos > 0 && chz.choose(2) == 1;
         let retain = chz.choose(2) == 1;
         let mask = chz.choose(64);
-        let nuser = chz.choose(3);
+        let nuser = chz.choose(4);
         let payload_kind = chz.choose(3);
         let mut props = vec![Prop::var(P_SUBSCRIPTION_ID, sid)];
         if mask & 1 != 0 {
@@ -85,8 +85,16 @@ fn fields_scenario(name: String, params: Value) -> Scenario {
         if mask & 32 != 0 {
             props.push(Prop::str(P_CONTENT_TYPE, "text/\u{00e9}"));
         }
-        for i in 0..nuser {
-            props.push(Prop::user("k", &format!("v{}", i)));
+        if nuser == 3 {
+            // names in no particular order, one repeated non-adjacently, case variants: the stream
+            // item must expose the pairs in wire order
+            for (k, v) in [("trace", "1"), ("origin", "2"), ("trace", "3"), ("Origin", "4"), ("", "5")] {
+                props.push(Prop::user(k, v));
+            }
+        } else {
+            for i in 0..nuser {
+                props.push(Prop::user("k", &format!("v{}", i)));
+            }
         }
         let payload = match payload_kind {
             0 => vec![],
